@@ -568,7 +568,7 @@ func (s *Sys) SideMap(t string) string {
 	if err != nil {
 		return "-"
 	}
-	return encPathValues(c.Status.Applied.Values)
+	return encPathValues(c.Values)
 }
 
 // ProposalOrder returns the targets of a transaction's proposals in stored order (hint for the twin).
@@ -620,4 +620,38 @@ func (s *Sys) RollbackValues(t, index string) string {
 		return "-"
 	}
 	return encPathValues(p.Status.RollbackValues)
+}
+
+// Drain runs every reconciler on every record, sweep after sweep, with an accepting plugin and
+// device, until a whole sweep writes nothing (the controllers are idle and at a fixed point) or
+// the bound is hit. It returns the number of sweeps and whether the fixed point was reached.
+func (s *Sys) Drain(targets []string, maxSweeps int) (int, bool) {
+	ctx, cancel := context.WithTimeout(context.Background(), 60*time.Second)
+	defer cancel()
+	for sweep := 1; sweep <= maxSweeps; sweep++ {
+		wrote := false
+		var ids []string
+		txs, _ := s.RawTx.List(ctx)
+		for _, t := range txs {
+			ids = append(ids, fmt.Sprintf("tx:%d", t.Index))
+		}
+		props, _ := s.RawProp.List(ctx)
+		for _, p := range props {
+			ids = append(ids, fmt.Sprintf("prop:%s:%d", strings.TrimPrefix(string(p.TargetID), "t"), p.TransactionIndex))
+		}
+		sort.Strings(ids)
+		for _, t := range targets {
+			ids = append(ids, "mast:"+t, "cfg:"+t)
+		}
+		for _, id := range ids {
+			r := s.Run(id, RunOpts{Plugin: "ok", Dev: "ok", SyncOK: 1000000, InjectAt: -1})
+			if r.Effects > 0 || r.Err {
+				wrote = true
+			}
+		}
+		if !wrote {
+			return sweep, true
+		}
+	}
+	return maxSweeps, false
 }
